@@ -134,17 +134,17 @@ mod verif_graph {
         std::mem::forget(g);
     }
 
-    // @h name=graph_dag_2steps tier=thorough timeout=7200 mem=24 props=C05,C06
+    // @h name=graph_dag_2steps tier=parked timeout=7200 mem=24 props=C05,C06
     #[kani::proof]
     #[kani::unwind(8)]
     fn graph_dag_2steps() { dag_case(2, false); }
 
-    // @h name=graph_dag_3steps tier=thorough timeout=7200 mem=24 weight=2 props=C05,C06
+    // @h name=graph_dag_3steps tier=parked timeout=7200 mem=24 weight=2 props=C05,C06
     #[kani::proof]
     #[kani::unwind(8)]
     fn graph_dag_3steps() { dag_case(3, true); }
 
-    // @h name=graph_dag_4steps tier=thorough timeout=7200 mem=32 weight=3 props=C05,C06
+    // @h name=graph_dag_4steps tier=parked timeout=7200 mem=32 weight=3 props=C05,C06
     #[kani::proof]
     #[kani::unwind(8)]
     fn graph_dag_4steps() { dag_case(4, true); }
@@ -176,17 +176,17 @@ mod verif_graph {
         std::mem::forget(g);
     }
 
-    // @h name=graph_cycle_two tier=thorough kind=bounded_termination timeout=7200 mem=32 weight=3 props=C08 role=look-up+cycle+A<->B+(graph+built+by+insert_asset)
+    // @h name=graph_cycle_two tier=parked kind=bounded_termination timeout=7200 mem=32 weight=3 props=C08 role=look-up+cycle+A<->B+(graph+built+by+insert_asset)
     #[kani::proof]
     #[kani::unwind(5)]
     fn graph_cycle_two() { cyc_case(0); kani::cover!(true); }
 
-    // @h name=graph_cycle_self tier=thorough kind=bounded_termination timeout=7200 mem=32 weight=3 props=C08 role=self+look-up+(graph+built+by+insert_asset)
+    // @h name=graph_cycle_self tier=parked kind=bounded_termination timeout=7200 mem=32 weight=3 props=C08 role=self+look-up+(graph+built+by+insert_asset)
     #[kani::proof]
     #[kani::unwind(5)]
     fn graph_cycle_self() { cyc_case(1); kani::cover!(true); }
 
-    // @h name=graph_cycle_three tier=thorough kind=bounded_termination timeout=7200 mem=32 weight=3 props=C08 role=look-up+cycle+A->B->C->A+(graph+built+by+insert_asset)
+    // @h name=graph_cycle_three tier=parked kind=bounded_termination timeout=7200 mem=32 weight=3 props=C08 role=look-up+cycle+A->B->C->A+(graph+built+by+insert_asset)
     #[kani::proof]
     #[kani::unwind(6)]
     fn graph_cycle_three() { cyc_case(2); kani::cover!(true); }
@@ -241,17 +241,17 @@ mod verif_graph {
     #[kani::unwind(3)]
     fn graph_cycvisit_self() { cyc_direct(1, false); kani::cover!(true); }
 
-    // @h name=graph_cycvisit_two tier=thorough kind=bounded_termination cap=2 timeout=7200 mem=32 props=C08 role=two+assets+that+look+each+other+up
+    // @h name=graph_cycvisit_two tier=parked kind=bounded_termination cap=2 timeout=7200 mem=32 props=C08 role=two+assets+that+look+each+other+up
     #[kani::proof]
     #[kani::unwind(4)]
     fn graph_cycvisit_two() { cyc_direct(0, false); kani::cover!(true); }
 
-    // @h name=graph_cycsort_self tier=thorough kind=bounded_termination timeout=3600 mem=24 weight=2 props=C08 role=self+look-up+from+a+file+event
+    // @h name=graph_cycsort_self tier=parked kind=bounded_termination timeout=3600 mem=24 weight=2 props=C08 role=self+look-up+from+a+file+event
     #[kani::proof]
     #[kani::unwind(5)]
     fn graph_cycsort_self() { cyc_direct(1, true); kani::cover!(true); }
 
-    // @h name=graph_cycsort_two tier=thorough kind=bounded_termination timeout=3600 mem=24 weight=2 props=C08 role=look-up+cycle+A<->B+from+a+file+event
+    // @h name=graph_cycsort_two tier=parked kind=bounded_termination timeout=3600 mem=24 weight=2 props=C08 role=look-up+cycle+A<->B+from+a+file+event
     #[kani::proof]
     #[kani::unwind(5)]
     fn graph_cycsort_two() { cyc_direct(0, true); kani::cover!(true); }
@@ -269,9 +269,7 @@ mod verif_graph {
         } else {
             g.0.insert(adep(0), node_with_rdeps(&[]));
         }
-        let unknown = OwnedDirEntry::File(SharedString::from("q"), SharedString::from("x"));
-        assert!(!g.contains(&unknown) && g.contains(&fentry(0)));
-        let ev = [fentry(0), fentry(1), unknown, fentry(0)];
+        let ev = [fentry(0), fentry(1)];
         let sorted = g.topological_sort_from(ev.iter());
         let mut n = 0;
         let mut seen_a = 0;
@@ -289,12 +287,33 @@ mod verif_graph {
         std::mem::forget(ev);
     }
 
-    // @h name=graph_two_paths_leaf tier=quick cap=3 timeout=600 props=C06,C05 role=asset+reading+two+notified+files
+    // @h name=graph_two_paths_leaf tier=parked cap=3 timeout=5400 mem=32 weight=2 props=C06,C05 role=asset+reading+two+notified+files
     #[kani::proof]
     #[kani::unwind(6)]
     fn graph_two_paths_leaf() { two_paths_case(false); kani::cover!(true); }
 
-    // @h name=graph_two_paths_chain tier=thorough cap=4 timeout=3600 mem=24 props=C06,C05 role=asset+reading+two+notified+files+with+a+dependent
+    // an event for an entry nobody recorded selects nothing
+    // @h name=graph_unknown_event tier=parked cap=2 timeout=5400 mem=32 weight=2 props=C06,C05 role=event+for+an+entry+absent+from+the+graph
+    #[kani::proof]
+    #[kani::unwind(5)]
+    fn graph_unknown_event() {
+        let mut g = DepsGraph::new();
+        g.0.insert(fdep(0), node_with_rdeps(&[0]));
+        g.0.insert(adep(0), node_with_rdeps(&[]));
+        let unknown = OwnedDirEntry::File(SharedString::from("q"), SharedString::from("x"));
+        let dir_same_id = OwnedDirEntry::Directory(SharedString::from("f"));
+        assert!(!g.contains(&unknown) && !g.contains(&dir_same_id) && g.contains(&fentry(0)));
+        let ev = [unknown, dir_same_id];
+        let sorted = g.topological_sort_from(ev.iter());
+        let mut n = 0;
+        for _k in sorted.into_iter() { n += 1; assert!(n <= 2); }
+        assert_eq!(n, 0, "an event for an entry nobody recorded triggered a reload");
+        kani::cover!(true);
+        std::mem::forget(g);
+        std::mem::forget(ev);
+    }
+
+    // @h name=graph_two_paths_chain tier=parked cap=4 timeout=3600 mem=24 props=C06,C05 role=asset+reading+two+notified+files+with+a+dependent
     #[kani::proof]
     #[kani::unwind(7)]
     fn graph_two_paths_chain() { two_paths_case(true); kani::cover!(true); }
